@@ -43,7 +43,19 @@ pub fn mmap(ctx: &Ctx) -> Stats {
             _ => rng.usize(2, 40),
         };
         let nrec = if k >= 7 { nrec.min(6) } else { nrec };
-        let recs = if rng.chance(1, 2) { distinct_records(&mut rng, nrec, k, true) } else { gen_records(&mut rng, nrec, k, None, 120, 0) };
+        let mut recs = if rng.chance(1, 2) { distinct_records(&mut rng, nrec, k, true) } else { gen_records(&mut rng, nrec, k, None, 120, 0) };
+        let mut k = k;
+        if i % 200 == 17 {
+            // a row whose dominant value rounds *up* to 1.000000 (frequency in [0.9999995, 1)) next to values that round
+            // down to 0.000000: > 2 million windows of one k-mer and a single foreign one; the row must keep its fixed width
+            k = rng.usize(1, 2);
+            let n = rng.usize(2_050_000, 2_400_000);
+            let mut seq = vec![b'A'; n];
+            seq.push(b'C');
+            let at = rng.usize(0, recs.len());
+            recs.insert(at, refmodel::gen::Rec { id: "dominant".into(), desc: None, seq });
+            st.class("row with a value in [0.9999995, 1)");
+        }
         let delim = DELIMS[(i as usize) % DELIMS.len()];
         let cfg = OligoCfg { k, threads: rng.usize(1, 16), memory: 4 << 30, header: rng.chance(1, 2), delim: delim.to_string(), norm: true, writer: Writer::Mmap };
         let sc = Scratch::new(ctx, "c14m");
@@ -62,7 +74,10 @@ pub fn mmap(ctx: &Ctx) -> Stats {
         let outp = sc.path("out.kmers");
         let mode = if i % 3 == 0 { Mode::Perturbed { seed: rng.next_u64(), max_us: 50 } } else { Mode::Log };
         let ctl = Controller::new(mode, cfg.threads, "oligo.took", "oligo.exit", vec![]);
-        let case = || Json::obj().set("cfg", cfg.json()).set("n_records", Json::u(recs.len())).set("records", recs_json(&recs));
+        let case = || {
+            let small: Vec<refmodel::gen::Rec> = recs.iter().map(|r| if r.seq.len() > 100_000 { refmodel::gen::Rec { id: format!("{}(A*{}+C)", r.id, r.seq.len() - 1), desc: None, seq: b"A...AC".to_vec() } } else { r.clone() }).collect();
+            Json::obj().set("cfg", cfg.json()).set("n_records", Json::u(recs.len())).set("records", recs_json(&small))
+        };
         note_current_case(ctx, &case());
         let run = run_oligo(&inp, &outp, &cfg, Some(&ctl));
         let trace = run.trace.unwrap();
